@@ -363,6 +363,9 @@ def check(ctx):
     ctx.rule("R4", "termination: decision table of the wait loop over (age < DISCOVERY_TIMEOUT, had enough time, some spa listed, requested spa found) by interpretation - it keeps waiting exactly when in time, not (enough time and some spa) and not found; every iteration suspends; age measured from the start stamp")
     ctx.rule("R5", "clean-up: transport closed and LOC tasks cancelled on every exit of discover(), cancellation included")
     ctx.rule("R6", "descriptor keeps (identifier, name, sender) unchanged; HELLO reply parsing is C04.R6")
+    ctx.rule("R10", "names and identifiers intact for every byte: the codec the HELLO decoder and the identifier filter use carries every byte value (latin-1; cp1252 remaps 27 byte values and cannot decode 5 - a spa whose name holds one of those is listed under another name or kills the reply consumer) (C04.R7 borrowed)")
+    from .c04 import codec as _codec15
+    _codec15(ctx.borrowed("R10", "C04"), repo)
 
     fi = repo.own_method("GeckoAsyncLocator", "_async_on_discovered")
     g = cfg_of(fi)
